@@ -249,6 +249,9 @@ func (w *World) lemmaObligations() []*Obl {
 	var out []*Obl
 	for _, name := range sortedKeys(w.cs.Lemmas) {
 		lm := w.cs.Lemmas[name]
+		if lm.Axiom {
+			continue
+		}
 		e := &Enc{w: w, key: "lemma::" + name}
 		e.reset()
 		e.pass = 2
